@@ -44,6 +44,8 @@ EXPECTED = {
     "default-units": {"SCHEMA_ATTRIBUTE_VALUE_INVALID"},
     "allowed-character": {"SCHEMA_ATTRIBUTE_VALUE_INVALID"},
     "foreign-in-library": {"SCHEMA_ATTRIBUTE_VALUE_INVALID", "SCHEMA_ATTRIBUTE_INVALID"},
+    # not one of the statement's fault kinds; seeded for the last clause (with warnings off only errors are returned)
+    "text-character": {"SCHEMA_CHARACTER_INVALID"},
     "hed-id-out-of-range": {"SCHEMA_ATTRIBUTE_VALUE_INVALID"},
     "hed-id-malformed": {"SCHEMA_ATTRIBUTE_VALUE_INVALID"},
     "hed-id-changed": {"SCHEMA_ATTRIBUTE_VALUE_INVALID"},
@@ -306,6 +308,14 @@ class Source:
                     pass
                 if self.entry_hed_id(e) is not None and own:
                     pos.append(("hed-id-changed", f"{kind} {nm}", on_sec(g, i, self.changed_id), (kind, 0)))
+        # a character outside the text class in the prologue / epilogue (8.3-generation schemas check those texts)
+        if self.fname in ("HED8.3.0.xml", "HED_score_2.0.0.xml"):
+            for which in ("prologue", "epilogue"):
+                def bad_text(r, which=which):
+                    e = r.find(which)
+                    e.text = (e.text or "") + "\tbad {brace}"
+                    return which.capitalize()
+                pos.append(("text-character", f"{which} text", bad_text, ("Text", 0, which)))
         return pos
 
     def tag_only_attributes(self):
